@@ -129,7 +129,7 @@ Kleene(t, env, av) ==
              RECURSIVE col(_, _)
              col(i, acc) == IF i > n THEN acc ELSE col(i + 1, Append(acc, Kleene(t.kids[i], env, av)))
              vs == col(1, <<>>)
-         IN IF \E i \in 1..n : ~Ok(vs[i]) THEN E("some")
+         IN IF \E i \in 1..n : ~Ok(vs[i]) THEN (IF \E i \in 1..n : IsWide(vs[i]) THEN E("wide") ELSE E("some"))
             ELSE IF IsAnd(t) /\ Has(vs, B(FALSE)) THEN B(FALSE)
             ELSE IF IsOr(t) /\ Has(vs, B(TRUE)) THEN B(TRUE)
             ELSE IF Has(vs, DNE) THEN DNE
